@@ -73,6 +73,8 @@ pub trait LogView: Send + Sync {
     fn first(&self) -> u64;
     fn last(&self) -> u64;
     fn term_of(&self, idx: u64) -> Option<u64>;
+    /// membership change carried by the entry at `idx`: (kind, node ids)
+    fn conf_change(&self, idx: u64) -> Option<(&'static str, Vec<u32>)>;
 }
 
 #[derive(Clone)]
